@@ -334,6 +334,9 @@ def _sleep(d):
 # scheduler
 # ---------------------------------------------------------------------------
 
+ADV_MAX = 1000  # adversarial clock: largest step of one clock read (virtual seconds)
+
+
 class Scheduler(object):
     def __init__(self, pm, eps=None, gran=0, max_steps=20000, adversarial=False):
         self.pm = pm
@@ -372,7 +375,8 @@ class Scheduler(object):
         if self.adversarial:
             # computation may take arbitrarily long: fresh positive delta per read
             self.n_delta += 1
-            d = self.pm.real("delta%d" % self.n_delta, lo=0, lo_strict=True)
+            # (bounded by ADV_MAX: the harnesses' "forever" is 10**6 virtual seconds)
+            d = self.pm.real("delta%d" % self.n_delta, lo=0, lo_strict=True, hi=ADV_MAX)
             self.anchor = v + d
             self.k = 0
         else:
